@@ -63,7 +63,10 @@ class A(Adapter):
         # (tag, num_nodes, max_capacity, max_demand, generator kind)
         sizes = [("tiny", 2, 3, 3, "uniform"), ("tight", 5, 4, 4, "uniform"), ("odd", 7, 12, 6, "uniform"),
                  ("full", 4, 5, 5, "full"), ("default", 20, 30, 10, "uniform"),
-                 ("zero", 7, 9, 6, "zero")]
+                 ("zero", 7, 9, 6, "zero"),
+                 # the edge of what CVRP.__init__ accepts (Props.C10.cvrp_ctor_check): capacity equal to / one below the largest demand;
+                 # a configuration the constructor refuses is skipped, one it accepts must generate well-formed instances
+                 ("edge0", 6, 5, 5, "uniform"), ("edge-1", 6, 4, 5, "uniform")]
         if tier != "quick":
             sizes += [("one", 1, 2, 2, "uniform"), ("roomy", 6, 100, 3, "uniform"), ("full9", 9, 2, 2, "full"),
                       ("n30", 30, 20, 10, "uniform")]
@@ -88,7 +91,8 @@ class A(Adapter):
                                    "sqrt2": rat(SQRT2_F32)},
                                   dense=dense, n=n, partner=partner,
                                   # not a shipped generator: its instances are not subject to the generator certificates of C10
-                                  **({"only": {"C01", "C03", "C04", "C05", "C06", "C08", "C09", "C11", "C12"}} if kind == "zero" else {})))
+                                  **({"only": {"C01", "C03", "C04", "C05", "C06", "C08", "C09", "C11", "C12"}} if kind == "zero" else {}),
+                                  **({"optional": True, "only": {"C10", "C01", "C06"}} if tag.startswith("edge") else {})))
         return out
 
     # ---- serialisation
